@@ -2,17 +2,21 @@
 
 // C05 — transactions are all-or-nothing and isolated.
 // Oracle: for every generated operation list, executed on a generated pre-state:
-//   failed txn  => canonical dump (all tables + index table) byte-identical, no batch queued for the
-//                  event publisher, no watch channel of the query universe fired, no tombstone-GC hint;
-//   successful  => results and final dump equal to a TWIN store that applies the same operations one
-//                  by one as single-operation transactions at the same index (later ops see earlier ones);
-//   read-only   => TxnRO never changes the dump.
+//
+//	failed txn  => canonical dump (all tables + index table) byte-identical, no batch queued for the
+//	               event publisher, no watch channel of the query universe fired, no tombstone-GC hint;
+//	successful  => results and final dump equal to a TWIN store that applies the same operations one
+//	               by one as single-operation transactions at the same index (later ops see earlier ones);
+//	read-only   => TxnRO never changes the dump.
+//
 // The failing position is ENUMERATED: for each successful list of length n, the n+1 variants with a
 // guaranteed-failing operation inserted at position p are run as well.
 package c05
 
 import (
 	"fmt"
+	"regexp"
+	"strconv"
 	"strings"
 	"testing"
 	"time"
@@ -311,8 +315,37 @@ func TestZZVerifC05(t *testing.T) {
 						}
 					}
 					b.r.Close()
-					// all effects stamped with the single index: no row may carry a modify index beyond it
-					// (checked through the index table: max index == txn index when something changed)
+					// "applies all of its operations at one index": every row the transaction wrote or changed
+					// carries the transaction's index as modify index, and every index-table row it moved
+					// was moved to exactly that index
+					for _, x := range dump.RowDiffs(before, after, 4000, nil) {
+						if x.B == "" || x.Kind == "order" {
+							continue // deleted rows carry no stamp
+						}
+						var got uint64
+						ok := false
+						if x.Table == "index" {
+							if m := reIndexValue.FindStringSubmatch(x.B); m != nil {
+								got, _ = strconv.ParseUint(m[1], 10, 64)
+								ok = true
+							}
+						} else if m := reModifyIndex.FindStringSubmatch(x.B); m != nil {
+							got, _ = strconv.ParseUint(m[1], 10, 64)
+							ok = true
+						}
+						if !ok {
+							continue
+						}
+						run.Count("rows_written_by_committed_txn_checked_for_index")
+						if got != idx+1 {
+							what := "row"
+							if x.Table == "index" {
+								what = "index-table row"
+							}
+							run.Violation("C05:commit:not-at-one-index:"+x.Table, fmt.Sprintf("transaction at index %d left a %s of table %s stamped %d: before=%s after=%s; ops=%v", idx+1, what, x.Table, got, trunc(x.A, 200), trunc(x.B, 200), classes), wit())
+							break
+						}
+					}
 				}
 				// read-only path
 				if allReadOnly(v) {
@@ -338,10 +371,14 @@ func TestZZVerifC05(t *testing.T) {
 	run.Floor("read_only_txn", 10)
 	run.Floor("guards_that_must_fail_checked", 50)
 	run.Floor("txn_committed_with_read_back_of_own_writes", 20)
+	run.Floor("rows_written_by_committed_txn_checked_for_index", 300)
 	if run.Finish() == 1 {
 		t.Fail()
 	}
 }
+
+var reModifyIndex = regexp.MustCompile(`(?i)modifyindex:(\d+)`)
+var reIndexValue = regexp.MustCompile(`(?i)value:(\d+)`)
 
 // readBacks returns read operations for everything the list writes: the twin (which commits every
 // operation before the next one runs) and the transaction must return the same for them.
